@@ -67,7 +67,11 @@ _T = {
 }
 _DONE = sorted(_T)
 
-CHECKS = [dict(property_id=p, text="Static verdict on: " + _T[p][0] + "." + WHY, design_ref=f"DESIGN.md section 4, {p}", note=NOTE,
+MORE = (" Further necessary conditions were added while building, each with the seeded change or refactoring that showed the need "
+        "(DESIGN.md 9.3, 9.8, 9.12: e.g. crash / interleaving sweeps over the extracted effect model, cache ownership, exact reference "
+        "lookup, no state left by an evaluation, lossless source text, readers are read-only).")
+
+CHECKS = [dict(property_id=p, text="Static verdict on: " + _T[p][0] + "." + MORE + WHY, design_ref=f"DESIGN.md section 4 ({p}) and sections 9.3 / 9.8 / 9.12", note=NOTE,
                technique="static analysis: " + _T[p][1]) for p in sorted(_DONE)]
 
 _PENDING = "check under construction in this session; not claimed until it runs clean (see DESIGN.md)"
